@@ -1,6 +1,230 @@
 /-
-Helper lemmas (Bytes).
+Helper lemmas (Bytes): little-endian byte round trip, decimal digits round trip, `pU64`, `checkedSize`,
+ASCII byte/char conversions. Core Lean only. Stated generally (shared with C15/C16/C18).
 -/
 import SfsModel.Model.Text
 namespace Sfs
+
+/-! ## little-endian bytes -/
+
+@[simp] theorem leBytes_length (k n : Nat) : (leBytes k n).length = k := by
+  induction k generalizing n with
+  | zero => simp [leBytes]
+  | succ k ih => simp [leBytes, ih]
+
+theorem leBytes_lt (k n : Nat) : ∀ b ∈ leBytes k n, b < 256 := by
+  induction k generalizing n with
+  | zero => simp [leBytes]
+  | succ k ih =>
+    intro b hb
+    simp only [leBytes, List.mem_cons] at hb
+    rcases hb with rfl | hb
+    · exact Nat.mod_lt _ (by decide)
+    · exact ih _ b hb
+
+theorem ofLeBytes_leBytes (k n : Nat) : ofLeBytes (leBytes k n) = n % 256 ^ k := by
+  induction k generalizing n with
+  | zero => simp [leBytes, ofLeBytes, Nat.mod_one]
+  | succ k ih =>
+    simp only [leBytes, ofLeBytes, ih]
+    rw [Nat.pow_succ, Nat.mul_comm (256 ^ k) 256, Nat.mod_mul]
+
+theorem ofLeBytes_leBytes_of_lt (k n : Nat) (h : n < 256 ^ k) : ofLeBytes (leBytes k n) = n := by
+  rw [ofLeBytes_leBytes, Nat.mod_eq_of_lt h]
+
+theorem ofLeBytes_leBytes8 (n : Nat) (h : n < 2 ^ 64) : ofLeBytes (leBytes 8 n) = n :=
+  ofLeBytes_leBytes_of_lt 8 n (by simpa using h)
+
+theorem ofLeBytes_leBytes2 (n : Nat) (h : n < 65536) : ofLeBytes (leBytes 2 n) = n :=
+  ofLeBytes_leBytes_of_lt 2 n (by simpa using h)
+
+theorem ofLeBytes_lt (l : List Nat) (h : ∀ b ∈ l, b < 256) : ofLeBytes l < 256 ^ l.length := by
+  induction l with
+  | nil => simp [ofLeBytes]
+  | cons b bs ih =>
+    have hb : b < 256 := h b (by simp)
+    have := ih (fun x hx => h x (by simp [hx]))
+    simp only [ofLeBytes, List.length_cons, Nat.pow_succ]
+    omega
+
+/-! ## ASCII bytes / chars -/
+
+@[simp] theorem bytesToChars_asciiBytes (s : List Char) : bytesToChars (asciiBytes s) = s := by
+  induction s with
+  | nil => rfl
+  | cons c s ih =>
+    simp only [bytesToChars, asciiBytes, List.map_cons, List.map_map] at ih ⊢
+    rw [ih, Char.ofNat_toNat]
+
+@[simp] theorem asciiBytes_append (a b : List Char) : asciiBytes (a ++ b) = asciiBytes a ++ asciiBytes b := by
+  simp [asciiBytes]
+
+@[simp] theorem bytesToChars_append (a b : List Nat) : bytesToChars (a ++ b) = bytesToChars a ++ bytesToChars b := by
+  simp [bytesToChars]
+
+@[simp] theorem asciiBytes_length (a : List Char) : (asciiBytes a).length = a.length := by
+  simp [asciiBytes]
+
+@[simp] theorem allAscii_append (a b : List Nat) : allAscii (a ++ b) = (allAscii a && allAscii b) := by
+  simp [allAscii]
+
+theorem allAscii_asciiBytes (s : List Char) (h : ∀ c ∈ s, c.toNat < 128) : allAscii (asciiBytes s) = true := by
+  simp only [allAscii, asciiBytes, List.all_map, List.all_eq_true, Function.comp]
+  intro c hc
+  simpa using h c hc
+
+/-! ## decimal digits -/
+
+theorem digitsVal_eq (l : List Char) : digitsVal l = Nat.ofDigitChars 10 l 0 := rfl
+
+theorem digitsVal_showNat (n : Nat) : digitsVal (showNat n) = n :=
+  Nat.ofDigitChars_toDigits (by decide) (by decide)
+
+theorem digitsVal_toDigits (n : Nat) : digitsVal (Nat.toDigits 10 n) = n :=
+  Nat.ofDigitChars_toDigits (by decide) (by decide)
+
+theorem digitsVal_append (a b : List Char) :
+    digitsVal (a ++ b) = 10 ^ b.length * digitsVal a + digitsVal b := by
+  rw [digitsVal_eq, Nat.ofDigitChars_append, Nat.ofDigitChars_eq_ofDigitChars_zero]
+  rfl
+
+@[simp] theorem digitsVal_replicate_zero (n : Nat) : digitsVal (List.replicate n '0') = 0 := by
+  rw [digitsVal_eq, Nat.ofDigitChars_replicate_zero]; simp
+
+theorem showNat_ne_nil (n : Nat) : showNat n ≠ [] := Nat.toDigits_ne_nil
+
+theorem showNat_isDigit (n : Nat) : ∀ c ∈ showNat n, c.isDigit = true :=
+  fun _ hc => Nat.isDigit_of_mem_toDigits (by decide) (by decide) hc
+
+theorem toDigits_isDigit (n : Nat) : ∀ c ∈ Nat.toDigits 10 n, c.isDigit = true :=
+  fun _ hc => Nat.isDigit_of_mem_toDigits (by decide) (by decide) hc
+
+/-- the first character of a printed number is a digit. -/
+theorem showNat_head (n : Nat) : ∃ c t, showNat n = c :: t ∧ c.isDigit = true := by
+  cases h : showNat n with
+  | nil => exact absurd h (showNat_ne_nil n)
+  | cons c t => exact ⟨c, t, rfl, showNat_isDigit n c (by simp [h])⟩
+
+/-- the last character of a printed number is a digit. -/
+theorem showNat_last (n : Nat) : ∃ t c, showNat n = t ++ [c] ∧ c.isDigit = true := by
+  have hne := showNat_ne_nil n
+  refine ⟨(showNat n).dropLast, (showNat n).getLast hne, (List.dropLast_concat_getLast hne).symm, ?_⟩
+  exact showNat_isDigit n _ (List.getLast_mem hne)
+
+theorem isDigit_toNat {c : Char} (h : c.isDigit = true) : 48 ≤ c.toNat ∧ c.toNat ≤ 57 := by
+  simp only [Char.isDigit, Bool.and_eq_true, decide_eq_true_eq] at h
+  have h1 : '0'.val ≤ c.val := h.1
+  have h2 : c.val ≤ '9'.val := h.2
+  rw [UInt32.le_iff_toNat_le] at h1 h2
+  exact ⟨h1, h2⟩
+
+theorem isDigit_lt128 {c : Char} (h : c.isDigit = true) : c.toNat < 128 := by
+  have := isDigit_toNat h; omega
+
+/-! ## generic takeWhile/dropWhile split -/
+
+theorem takeWhile_append_stop {α} (p : α → Bool) : ∀ (l r : List α), (∀ x ∈ l, p x = true) →
+    (∀ x, r.head? = some x → p x = false) → (l ++ r).takeWhile p = l ∧ (l ++ r).dropWhile p = r
+  | [], r, _, hr => by
+    cases r with
+    | nil => simp
+    | cons x r => simp [hr x rfl]
+  | a :: l, r, hl, hr => by
+    have ha : p a = true := hl a (by simp)
+    have ih := takeWhile_append_stop p l r (fun x hx => hl x (by simp [hx])) hr
+    simp [ha, ih.1, ih.2]
+
+/-! ## `pU64` -/
+
+theorem pU64_showNat (n : Nat) (rest : List Char) (hn : n < 2 ^ 64)
+    (hrest : ∀ c, rest.head? = some c → c.isDigit = false) :
+    pU64 (showNat n ++ rest) = some (n, rest) := by
+  unfold pU64
+  have h := takeWhile_append_stop Char.isDigit (showNat n) rest (showNat_isDigit n) hrest
+  have hne : (showNat n).isEmpty = false := by
+    cases hd : showNat n with
+    | nil => exact absurd hd (showNat_ne_nil n)
+    | cons _ _ => rfl
+  have hv : (showNat n).foldl (fun acc c => 10 * acc + (c.toNat - '0'.toNat)) 0 = n := digitsVal_showNat n
+  simp only [h.1, h.2, hne, hv, hn, if_true, Bool.false_eq_true, if_false]
+
+theorem pU64_nondigit (inp : List Char) (h : ∀ c, inp.head? = some c → c.isDigit = false) : pU64 inp = none := by
+  unfold pU64
+  cases inp with
+  | nil => simp
+  | cons c t => simp [List.takeWhile, h c rfl]
+
+/-! ## `checkedSize` -/
+
+/-- the step of the `checked_mul` fold. -/
+def csStep (acc : Option Nat) (v : Nat) : Option Nat :=
+  match acc with
+  | some n => if n * v < 2 ^ 64 then some (n * v) else none
+  | none => none
+
+theorem checkedSize_eq_foldl (s : List Nat) : checkedSize s = s.foldl csStep (some 1) := rfl
+
+theorem csStep_foldl_none (s : List Nat) : s.foldl csStep none = none := by
+  induction s with
+  | nil => rfl
+  | cons v s ih => simpa [csStep] using ih
+
+theorem size_pos_of_pos (s : List Nat) (hs : ∀ v ∈ s, 0 < v) : 0 < size s := by
+  induction s with
+  | nil => simp [size]
+  | cons w s ih =>
+    simp only [size]
+    exact Nat.mul_pos (hs w (by simp)) (ih (fun x hx => hs x (by simp [hx])))
+
+/-- general form: the fold started at `a`, when every prefix product stays below 2^64. -/
+theorem csStep_foldl_pos (s : List Nat) (a : Nat) (hpos : ∀ v ∈ s, 0 < v) (ha : 0 < a)
+    (hlt : a * size s < 2 ^ 64) : s.foldl csStep (some a) = some (a * size s) := by
+  induction s generalizing a with
+  | nil => simp [size]
+  | cons v s ih =>
+    have hv : 0 < v := hpos v (by simp)
+    have hs : ∀ w ∈ s, 0 < w := fun w hw => hpos w (by simp [hw])
+    have hsz : 0 < size s := size_pos_of_pos s hs
+    simp only [size] at hlt
+    have h1 : a * v * size s = a * (v * size s) := Nat.mul_assoc _ _ _
+    have hav : a * v < 2 ^ 64 := by
+      have : a * v ≤ a * v * size s := Nat.le_mul_of_pos_right _ hsz
+      omega
+    simp only [List.foldl_cons, csStep, hav, if_true]
+    rw [ih (a * v) hs (Nat.mul_pos ha hv) (by omega), size, h1]
+
+/-- with all axes ≥ 1 the prefix products are bounded by the total, so `checked_elements` succeeds. -/
+theorem checkedSize_of_pos (s : List Nat) (hpos : ∀ v ∈ s, 0 < v) (hlt : size s < 2 ^ 64) :
+    checkedSize s = some (size s) := by
+  have := csStep_foldl_pos s 1 hpos (by decide) (by simpa using hlt)
+  rw [checkedSize_eq_foldl, this, Nat.one_mul]
+
+theorem csStep_foldl_some (s : List Nat) (a n : Nat)
+    (h : s.foldl csStep (some a) = some n) : n = a * size s := by
+  induction s generalizing a with
+  | nil => simpa [size] using h.symm
+  | cons v s ih =>
+    simp only [List.foldl_cons, csStep] at h
+    by_cases hav : a * v < 2 ^ 64
+    · simp only [hav, if_true] at h
+      rw [ih _ h, size, Nat.mul_assoc]
+    · simp only [hav, if_false] at h
+      rw [csStep_foldl_none] at h
+      cases h
+
+/-- whenever `checked_elements` succeeds it returns the product. -/
+theorem checkedSize_eq_some (s : List Nat) (n : Nat) (h : checkedSize s = some n) : n = size s := by
+  have := csStep_foldl_some s 1 n h
+  rw [this, Nat.one_mul]
+
+theorem csStep_foldl_zero (s : List Nat) : s.foldl csStep (some 0) = some 0 := by
+  induction s with
+  | nil => rfl
+  | cons v s ih => simpa [csStep] using ih
+
+/-- first axis 0: the product is 0 from the first step on. -/
+theorem checkedSize_zero_head (s : List Nat) : checkedSize (0 :: s) = some 0 := by
+  rw [checkedSize_eq_foldl]
+  simpa [csStep] using csStep_foldl_zero s
+
 end Sfs
